@@ -27,6 +27,11 @@ STRENGTHENED = [
     ("seeded/C03-b", "two lambdas with the same argument names on one physical line after re-layout", "C03 random re-layout of every family (line breaks at any token boundary) and varied dataset variable names"),
     ("seeded/C01-c", "nested operator whose lambda re-uses the enclosing lambda's argument name, the outer variable used afterwards, same method name on both classes with different defaults", "typed model: scaled() on Evt, Jet and Trk with different parameter order and defaults; generator shape 'outer variable used after a nested operator' (also caught by C07 unchanged)"),
     ("seeded/C02-c", "top-level `or` in the earlier of two adjacent filters", "typed generator `filter_body`: half of all Where predicates get deliberate top-level boolean structure (or / and / not / conditional / chained comparison)"),
+    ("seeded/C03-c", "the passed lambda is filed under another token than the method name (keyword argument, conditional arm, helper call on the line)", "C03 layout families: lambda passed by keyword, lambdas in both arms of a conditional expression, lambda through a helper call on the line (same and different argument names). The same-argument variants exposed the genuine defect D31; after its fix the seeded change is harmless"),
+    ("seeded/C05-c", "helper from another scope whose free names mean something else in the query lambda's module", "C05 helpers built by a factory with a free constant / free callee, while the module defines the same name differently; names left in the query are read in the helper's scope"),
+    ("seeded/C06-c", "comprehension target named like a captured variable that the iterable uses", "C06 callable form: module constant named like the loop variable, used inside the iterable (also caught by C04 unchanged)"),
+    ("seeded/C09-c", "class call-back looked up on the class that defines an inherited method", "C09 model: Jet and Trk inherit eta() from Base; class-level call-backs on Base and/or the subclasses"),
+    ("seeded/C10-c", "two dict literals with the same keys and different value types; the second feeds a conditional", "C10 classifier: branch types that are evident from the text (constants, comparisons, defined keys of followable dict literals, constant tuple indices) must pass; generator form pairing same-key dict literals with such conditionals"),
     ("seeded/C08-c", "generic subclass with more type parameters than its base uses", "C08 skeleton: Tag(Box[K], Generic[K,V]), Tag2(Box[V], ...), Swap(Pair[U,T], ...), HalfPair(Pair[T,int]), It2(Iterable[V], ...), TagInts(Tag[int,V]); class names taken from typing. This extension also exposed the genuine defects D29 and D30"),
 ]
 
